@@ -323,7 +323,14 @@ pub fn t3(prop: &str, seed: u64) -> RunDesc {
         let n = noise(&mut rng, 2, &d.cfg);
         d.threads.push(n);
     }
-    d.params = J::obj().set("template", "T3 upgrade racing destruction").set("child_in_parent", child_in_parent).set("link_age_rounds", age).set("upgrader_acts_during_pop_edges", in_destructor).set("two_owners_released_at_once", two_owners).set("weak_hammer", weak_hammer);
+    // fault: the first upgrader is frozen right before the compare-exchange of its first
+    // WeakSnapshot::upgrade (it has read the count word) until the retiring thread has finished its
+    // collection rounds: the word it read is gone by then, whatever was done to the object
+    let frozen_upgrade = Rng::new(seed ^ 0x3C).chance(0.25);
+    if frozen_upgrade {
+        d.cfg.stall = Some(StallCfg { victim: 2, site: site::NOT_DESTRUCTED_CAS, nth: 1, k: 0, release_signal: 5 });
+    }
+    d.params = J::obj().set("upgrader_frozen_before_its_cas", frozen_upgrade).set("template", "T3 upgrade racing destruction").set("child_in_parent", child_in_parent).set("link_age_rounds", age).set("upgrader_acts_during_pop_edges", in_destructor).set("two_owners_released_at_once", two_owners).set("weak_hammer", weak_hammer);
     d
 }
 
